@@ -8,6 +8,10 @@ open Goflow Goflow.Gen Goflow.Gen.History Goflow.Gen.Netflow Goflow.Spec.Netflow
 
 def smallTid : G Nat := range 256 259
 
+def withdrawn : Known → Bool
+  | .data [] => true
+  | _ => false
+
 def genScopedMsg (version dom : Nat) (kn : KnownMap) (foreign : List Nat) : G (Msg × KnownMap × Nat × Bool) := do
   let nsets ← range 1 4
   let mut sets : List SSet := []
@@ -38,8 +42,8 @@ def genScopedMsg (version dom : Nat) (kn : KnownMap) (foreign : List Nat) : G (M
       let opts ← genFields version
       sets := sets ++ [if version = 9 then .v9opts [(tid, scopes, opts)] 0 else .ipfixopts [(tid, scopes, opts)] 0]
       known := (tid, Known.opts scopes opts) :: known.filter (fun e => e.1 != tid)
-    else if k < 8 ∧ !known.isEmpty then
-      let (tid, kk) ← pick known
+    else if k < 8 ∧ !(known.filter (fun e => !withdrawn e.2)).isEmpty then
+      let (tid, kk) ← pick (known.filter (fun e => !withdrawn e.2))
       let s ← genDataSet tid kk 6
       match s with
       | .data _ _ rs _ => count := count + rs.length
@@ -65,7 +69,10 @@ def genMarkerMsg (version dom : Nat) (kn : KnownMap) : G (Msg × KnownMap × Lis
   let announce ← if cur.isNone then pure true else chance 2 3
   let curEnt : Option Nat := match cur with | some (f :: _) => f.ent | _ => none
   let newEnt : Option Nat ← if version = 10 ∧ (curEnt.isNone ∨ cur.isNone) ∧ (← chance 2 3) then (do pure (some (1 + (← below 60000)))) else pure none
-  let fs : List SField := if announce then [⟨1, 4, newEnt⟩, ⟨2, 4, none⟩] else cur.getD []
+  -- now and then the announcement is a withdrawal (field count 0): it replaces the layout like any other
+  -- announcement, and a data set of the id is refused from then on until a layout is announced again
+  let withdraw ← if announce ∧ cur.isSome ∧ cur != some [] then chance 1 5 else pure false
+  let fs : List SField := if announce then (if withdraw then [] else [⟨1, 4, newEnt⟩, ⟨2, 4, none⟩]) else cur.getD []
   let kn' := if announce then (markerTid, Known.data fs) :: kn.filter (fun e => e.1 != markerTid) else kn
   let v ← range 1 0xfffffff0
   let nrec ← range 1 3
@@ -77,7 +84,8 @@ def genMarkerMsg (version dom : Nat) (kn : KnownMap) : G (Msg × KnownMap × Lis
   let m := { m0 with count := max (totalRecords m0) sets.length }
   let hasData := withData ∨ !announce
   let expectBytes := match fs with | f :: _ => if f.ent.isNone then v else 0 | _ => 0
-  let exp := ["expect @res ok", "expect @count " ++ toString (if hasData then nrec else 0)] ++
+  let exp := if fs.isEmpty ∧ hasData then ["expect @res err", "expect @count 0"] else
+    ["expect @res ok", "expect @count " ++ toString (if hasData then nrec else 0)] ++
     (if hasData then ["expect @col * Bytes=" ++ toString expectBytes ++ " Packets=7"] else [])
   pure (m, kn', exp)
 
